@@ -7,7 +7,11 @@ Nonlinear real-arithmetic solver queries over the REAL functions (see checks/geo
   closest_segment_point      result on the segment, closest point up to the code's 1e-6 regulariser
   sphere_capsule             = sphere vs sphere of the capsule radius at that segment point (normal, dist, pos as above)
   plane_capsule              frame (plane normal, projected capsule axis, cross product) orthonormal; both end-cap contacts
-Outside: GJK/EPA, box, mesh, ellipsoid, cylinder, heightfield and SDF pairs; capsule_capsule; float32 rounding.
+  capsule_capsule            non-parallel: contact at the closest points of the two axis segments (KKT of the clamped convex
+                             quadratic), sphere-pair normal / dist / pos; parallel: each contact = (segment end, closest point
+                             of the other segment)
+  plane_box                  8 corner candidates: signed distance, midway pos, plane normal
+Outside: GJK/EPA, box-box, sphere/capsule-box, mesh, ellipsoid, cylinder, heightfield and SDF pairs; float32 rounding.
 """
 
 from checks import geom_c20
